@@ -346,6 +346,40 @@ pub fn run(ctx: &Ctx) {
         "indexcell",
     );
 
+    // a non-boolean condition is a type error on every rung of an else-if ladder, in a then-branch and in a nested condition
+    let ladder: Vec<EvalCase> = {
+        let mut out = vec![];
+        for v in &p {
+            let c = || Expr::Value(v.clone());
+            let i = |x: i128| Expr::value(x);
+            out.push(EvalCase::plain(Expr::iif(Expr::value(false), i(1), Expr::iif(c(), i(2), i(3))), Value::None));
+            out.push(EvalCase::plain(Expr::iif(Expr::value(false), i(1), Expr::iif(Expr::value(false), i(2), Expr::iif(c(), i(3), i(4)))), Value::None));
+            out.push(EvalCase::plain(Expr::iif(Expr::value(true), Expr::iif(c(), i(2), i(3)), i(1)), Value::None));
+            out.push(EvalCase::plain(Expr::iif(Expr::iif(Expr::value(true), c(), Expr::value(true)), i(1), i(2)), Value::None));
+            out.push(EvalCase::plain(Expr::and(Expr::value(true), Expr::iif(Expr::value(false), Expr::value(true), c())), Value::None));
+        }
+        out
+    };
+    ctx.enumerate(
+        "conditions-on-later-rungs",
+        ladder.len() as u64,
+        true,
+        |i, acc| {
+            let case = &ladder[i as usize];
+            acc.cell("ladder", true);
+            if i % 19 == 0 {
+                acc.sample("ladder", || case.render());
+            }
+            check_buried(case)
+        },
+        |i| {
+            let mut j = ladder[i as usize].to_json();
+            j["buried"] = serde_json::json!(true);
+            j
+        },
+        "buried",
+    );
+
     // an ill-typed element anywhere in a list literal is a type error, also when the list is only searched and an earlier
     // element already matches (lists of 2-40 elements, the match and the ill-typed element at every relative position)
     let late: Vec<EvalCase> = {
@@ -550,6 +584,23 @@ fn check_index_cell(c: &IndexCell) -> Verdict {
         (Value::Vec(v), false) => Some(v.get(c.pos).cloned().unwrap_or(Value::None)),
         _ => None,
     };
+    // (third form: the step applied to a symbol, as the collection operand of a membership test)
+    {
+        let idx = match c.expr(false) {
+            Expr::Index(_, i) => i,
+            _ => unreachable!(),
+        };
+        let e = Expr::contains(Expr::index(Expr::symbol("sc"), idx), Expr::value(7_000_001));
+        let case = EvalCase { expr: e, facts: Value::None, fns: Default::default(), symbols: [("sc".to_string(), c.container.clone())].into_iter().collect() };
+        let r = run_case(&case)?;
+        // a step that is a type error stays one; a step that resolves gives whatever membership in the result is (not judged here)
+        if want.is_none() && !matches!(r, Err(reval::Error::InvalidType)) {
+            return Err(Issue::new(
+                format!("coerce:index({},{}):under-contains", type_name(&c.container), if c.is_text() { "text" } else { "position" }),
+                format!("a step of the wrong kind is a type error wherever it stands: expected a type error, implementation returned {}; case {} with symbol sc = {}", me::show_actual(&r), case.render(), show_value(&c.container)),
+            ));
+        }
+    }
     for through_facts in [false, true] {
         let case = EvalCase::plain(c.expr(through_facts), if through_facts { c.container.clone() } else { Value::None });
         let r = run_case(&case)?;
